@@ -25,7 +25,12 @@ pub struct CelCompiler<'l> {
     bindings: BindContext<'l>,
 
     next_label: u32,
+    nesting: usize,
 }
+
+/// Maximum nesting of expressions (parentheses, lists, maps, arguments, indexes,
+/// ternary branches, `!`/`-` runs) the recursive descent parser accepts.
+const MAX_NESTING: usize = 32;
 
 impl<'l> CelCompiler<'l> {
     pub fn with_tokenizer(tokenizer: &'l mut dyn Tokenizer) -> Self {
@@ -33,7 +38,22 @@ impl<'l> CelCompiler<'l> {
             tokenizer,
             bindings: BindContext::for_compile(),
             next_label: 0,
+            nesting: 0,
         }
+    }
+
+    fn enter_nested(&mut self) -> CelResult<()> {
+        if self.nesting >= MAX_NESTING {
+            return Err(SyntaxError::from_location(self.tokenizer.location())
+                .with_message("Expression is nested too deeply".to_string())
+                .into());
+        }
+        self.nesting += 1;
+        Ok(())
+    }
+
+    fn leave_nested(&mut self) {
+        self.nesting = self.nesting.saturating_sub(1);
     }
 
     pub fn compile(mut self) -> CelResult<Program> {
@@ -58,6 +78,13 @@ impl<'l> CelCompiler<'l> {
     }
 
     fn parse_expression(&mut self) -> CelResult<(CompiledProg, AstNode<Expr>)> {
+        self.enter_nested()?;
+        let res = self.parse_expression_inner();
+        self.leave_nested();
+        res
+    }
+
+    fn parse_expression_inner(&mut self) -> CelResult<(CompiledProg, AstNode<Expr>)> {
         if let Some(Token::Match) = self.tokenizer.peek()?.as_token() {
             self.tokenizer.next()?;
             self.parse_match_expression()
@@ -837,7 +864,10 @@ impl<'l> CelCompiler<'l> {
             }) => {
                 self.tokenizer.next()?;
 
-                let (not_list, ast) = self.parse_not_list()?;
+                self.enter_nested()?;
+                let tail = self.parse_not_list();
+                self.leave_nested();
+                let (not_list, ast) = tail?;
                 let node = compile!([ByteCode::Not.into()], not_list, not_list);
 
                 let range = ast.range().surrounding(loc);
@@ -870,7 +900,10 @@ impl<'l> CelCompiler<'l> {
             }) => {
                 self.tokenizer.next()?;
 
-                let (neg_list, ast) = self.parse_neg_list()?;
+                self.enter_nested()?;
+                let tail = self.parse_neg_list();
+                self.leave_nested();
+                let (neg_list, ast) = tail?;
                 let node = compile!([ByteCode::Neg.into()], neg_list, neg_list);
 
                 let range = ast.range().surrounding(loc);
@@ -1290,6 +1323,7 @@ impl<'l> CelCompiler<'l> {
                         FStringSegment::Expr(e) => {
                             let mut tok = StringTokenizer::with_input(&e);
                             let mut comp = CelCompiler::with_tokenizer(&mut tok);
+                            comp.nesting = self.nesting;
 
                             let (e, _) = comp.parse_expression()?;
 
